@@ -4,14 +4,17 @@ Specification: specs/vm/VMGas.tla (cost table, accounting discipline: charge / d
 child machine; potential Phi = gas + memory cost of both stacks) used by VMOps.tla and run as a state
 machine by VMRun.tla.  TLC checks on every state of every reference execution: gas never negative,
 Phi <= limit, a CHECKPREDICATE child never returns more than it received, 0 <= gasLeft <= limit.
-  E: TLC enumerates (VMGasCases.tla) all programs of <= 2 symbols (quick; thorough adds 2 of 8 shards of
-     <= 3 symbols) over 27 symbols - pushes, refunding pops, back / forward jumps, CHECKPREDICATE calls
-     with predicates that succeed, fail, run out of gas, leave items behind, loop or call again, alt-stack
+  E: TLC enumerates (VMGasCases.tla) all programs of <= 2 symbols (quick; thorough adds 2 of 12 shards of
+     <= 3 symbols) over 32 symbols - pushes, refunding pops, back / forward jumps, CHECKPREDICATE calls
+     with predicates that succeed, fail, run out of gas, leave items behind, loop or call again, and limit
+     operands 2^63-1 / 2^63 / 2^63+1 / 2^64-1 / 2^64, alt-stack
      moves, size-dependent costs, expansion opcodes - x 2 argument lists x 4 (3) gas limits.
   T: seeded programs: random instruction sequences and byte strings <= 200 bytes biased to jumps and
      predicate calls with limits up to the consensus maximum 300000; loops around a predicate call for
-     every opcode as predicate with too little gas; every opcode once (its consumption is measured).
-  Binding: the real vm.Verify is executed with vm.TraceOut; remaining gas before every instruction
+     every opcode as predicate with too little gas; every opcode once (its consumption is measured); CHECKPREDICATE limits, SUBSTR / LEFT / RIGHT
+     sizes, PICK / ROLL indexes and CHECKMULTISIG counts at 2^63-1, 2^63, 2^63+1, 2^64-1, 2^64 with non-empty predicates.
+  Binding: the real vm.Verify is executed with vm.TraceOut; 0 <= gas <= limit is required before every instruction of
+     every machine and for gasLeft, whatever else diverges; remaining gas before every instruction
      (all depths), the final gasLeft and the run-limit failures must equal TLC's reference execution;
      an execution longer than limit*1.25+256 instructions is aborted and reported (non-termination);
      a completed instruction whose reference consumption (confirmed step by step by the code) is < 1 is
@@ -46,7 +49,7 @@ def run(ctx):
     # ---- E: enumerated programs
     runs = [("cfg/VMGasCases.quick.cfg", 0)]
     if not quick:
-        runs += [("cfg/VMGasCases.len3.cfg", (ctx.seed + 4 * j) % 8) for j in range(2)]
+        runs += [("cfg/VMGasCases.len3.cfg", (ctx.seed + 6 * j) % 12) for j in range(2)]
     for n, (cfg, k) in enumerate(runs):
         with open(os.path.join(os.path.dirname(os.path.dirname(os.path.abspath(__file__))), "specs", cfg)) as fh:
             text = fh.read().replace("Shard = 0", "Shard = %d" % k)
@@ -84,10 +87,10 @@ def run(ctx):
         opcodes_completed=total.get("opcodes_completed"), result_classes=total.get("result_classes"),
         families=total.get("families"), dropped_too_long=total.get("dropped_too_long", 0),
         negative_control=control, exhaustive=False,
-        rule="E: all programs of <= 2 symbols%s over the 27-symbol gas alphabet x 2 argument lists x gas limits "
-             "{0,9,40,250} (len 3: {30,320,700}); T: seeded random / predicate-loop / per-opcode programs with limits up to 300000 "
+        rule="E: all programs of <= 2 symbols%s over the 32-symbol gas alphabet x 2 argument lists x gas limits "
+             "{0,9,40,360} (len 3: {30,320,700}); T: seeded random / predicate-loop / per-opcode programs with limits up to 300000 "
              "(limits shrunk until the execution has <= 600 steps); non-trivial = at least one instruction completes"
-             % ("" if quick else " and 2 of 8 shards (by seed) of <= 3 symbols"),
+             % ("" if quick else " and 2 of 12 shards (by seed) of <= 3 symbols"),
     ), assumptions=[
         "the alt stack is not printed by vm.TraceOut; its memory cost is the reference's (all observable gas values must match)",
         "remaining gas of a failed top-level verification is only required to lie in [0, limit]",
